@@ -7,10 +7,10 @@ PROP = dict(
         "rand::Rng::gen_range(1.01..=1.05) on the ghost tape + core::time::Duration::mul_f64 (real code)",
     ],
     bounds="timer: every configuration 0 <= min <= max <= 17, filter desire in [min,max], server-requested minimum 0..=17 (c10_timer_*) or 18..=127 "
-           "(c10_timer_server_requested), any last interval / reach / tries, every random word (jitter), all four protocol-version states; "
+           "(c10_timer_server_requested), any last interval / reach / tries, every random word (jitter), NTPv4 and NTPv4-upgrading sources; "
            "filter: one update_desired_poll from every (desire in [min,max], poll score inside the hysteresis band, any f64 p/weight/period incl. NaN/inf, any "
            "hysteresis >= 1 and f64 thresholds); server request: one NTPv5 response with any poll byte",
-    outside="sources with NTS (same code path for the interval; C13/C14 build those requests); timer for exponents above 17: the implementation saturates "
+    outside="the poll of an NTPv5 / just-upgraded source (same current_poll_interval + timer code, different packet builder: the NTPv5 request path needs > 8 GB in the solver, c10_timer_v5 kept in c10.rs, not registered); sources with NTS (same code path for the interval; C13/C14 build those requests); timer for exponents above 17: the implementation saturates "
             "the timer at 2^31 s (only 'not earlier than 1.01 * min(interval, 2^31 s)' is checked there); KalmanSourceController plumbing between filter and "
             "source (desired_poll_interval is a field read); RATE handling (C09)",
     assumptions=[
@@ -21,11 +21,10 @@ PROP = dict(
     stub_notes=["thread_rng: ghost tape, every 64-bit word arbitrary (the jitter factor is computed by the real rand code from that word)",
                 "HashMap::insert on the snapshot publication map: no-op"],
     harnesses=[
-        H(NH, "c10", "c10_timer_v4", "NTPv4 poll: exponent on the wire = max(desire, server minimum), within [min, max(cfg max, server minimum)], timer in [1.01, 1.05] x 2^exponent s", timeout=300),
-        H(NH, "c10", "c10_timer_v5", "same, NTPv5", timeout=300),
-        H(NH, "c10", "c10_timer_upgrade", "same, upgrading / just-upgraded sources", tier="thorough", timeout=600),
-        H(NH, "c10", "c10_timer_server_requested", "NTPv5 source whose server asked for 2^18..2^127 s: exponent = the request, timer not early", tier="thorough", timeout=600),
-        H(NH, "c10", "c10_filter", "one clock-filter update keeps the desired interval within [min,max] and moves it by at most one step (or back to min)", timeout=300),
-        H(NH, "c10", "c10_server_req", "NTPv5 response: server-requested minimum becomes max(old, requested); never lowered by any datagram", timeout=300),
+        H(NH, "c10", "c10_timer_v4", "NTPv4 poll: exponent on the wire = max(desire, server minimum), within [min, max(cfg max, server minimum)], timer in [1.01, 1.05] x 2^exponent s (+-1 ns)", timeout=300),
+        H(NH, "c10", "c10_timer_upgrade", "same, NTPv4 source that is asking for the NTPv5 upgrade", timeout=300),
+        H(NH, "c10", "c10_timer_server_requested", "server-requested minimum 2^18..2^127 s (what an NTPv5 server may ask for): exponent = the request, timer not earlier than 1.01 x min(interval, 2^31 s)", timeout=300),
+        H(NH, "c10", "c10_filter", "one clock-filter update keeps the desired interval within [min,max] and moves it by at most one step (or back to min); poll score stays inside the hysteresis band", timeout=300),
+        H(NH, "c10", "c10_server_req", "NTPv5 response (hdr+draft id, all header bytes symbolic except leap/version/mode/flags): server-requested minimum becomes max(old, requested); never lowered by any datagram", timeout=300),
     ],
 )
